@@ -1,6 +1,7 @@
 import HqModel.Lemmas.SchedF1
 import HqModel.Lemmas.SchedF2
 import HqModel.Lemmas.SchedSpec
+import HqModel.Lemmas.SchedBatchesSpec
 import HqModel.Lemmas.SchedBox
 import HqModel.Lemmas.SchedPrio
 /-!
@@ -18,10 +19,10 @@ can make of a solution, `PriorityRespecting` = the statement of C15 including it
 * `c15_partial_F` — PARTIAL: `PriorityRespecting` for every instance of the fragment F = F1 ∪ F2, every optimal
   solution of `milp inst` and every placement the mapping can produce from it.
   F1 = at most one request class has ready tasks (any cluster, idle or busy; follows from the queue order alone).
-  F2 = one worker (idle or busy), at most two request classes with ready tasks, default class weights; proved by an
-  exchange argument on the cut / gap / blocker rows, for batches that satisfy the closed-form specification
-  `BatchesSpec` (hypothesis; decidable, evaluated by the driver on `batches inst` for every generated instance —
-  `out spec`; not yet proved for the loop of `batches` in general).
+  F2 = one worker (idle or busy), at most two request classes with ready tasks, default class weights, at most 32
+  priority levels; proved by an exchange argument on the cut / gap / blocker rows (`Lemmas/SchedF2*.lean`) on top of
+  `c15_batches_spec`: the loop of `batches` meets the closed-form specification `BatchesSpec` (loop invariant,
+  `Lemmas/SchedInv.lean`, `SchedLink.lean`, `SchedBatchesSpec.lean`).
   What is missing for the full property: the instances outside F — and there the statement is FALSE for the code
   as it is (`c15_counterexample*`): the encoding of priorities by cuts/gaps/blockers is an approximation. Known
   finding F7.
@@ -79,20 +80,29 @@ theorem prio_embedding_mono (x y : BitVec 32) :
   rw [decide_eq_decide]
   constructor <;> intro h <;> omega
 
+/-- `create_task_batches` meets its closed-form specification (sizes and limit flags from the task counts; every cut
+sits at a priority level of its class and names exactly the other classes that hold tasks of higher priority, with
+their count or `none` beyond their limit; every level that needs a cut is covered by one with the same blockers and
+a smaller-or-equal size; cut sizes ascend) — for every instance with non-empty levels and at most 32 priority levels
+(so that `prune_progressive` is the identity). Proved by a loop invariant over `stepLevel`. -/
+theorem c15_batches_spec (inst : Instance) (hne : ∀ q ∈ inst.queues, ∀ e ∈ q, e.2 ≠ [])
+    (hlv : inst.prios.length ≤ 32) : BatchesSpec inst (batches inst) :=
+  batches_spec hne hlv
+
 /-- PARTIAL (fragment F = F1 ∪ F2): for every well-formed instance with
 * at most one request class that has ready tasks (any cluster, idle or busy, any priorities), or
-* one worker (idle or busy), at most two request classes with ready tasks and default class weights, whose batches
-  satisfy the closed-form specification `BatchesSpec` (checked by the driver per generated instance),
+* one worker (idle or busy), at most two request classes with ready tasks, default class weights and at most 32
+  priority levels (C15 asks for up to 8),
 every optimal solution of the modelled MILP and every placement `create_task_mapping` can produce from it
-respects the priorities. Missing: `BatchesSpec (batches inst)` as a theorem about the loop; all instances outside
-F — see `c15_counterexample*` for why the full statement cannot be proved for the present encoding. -/
+respects the priorities. Missing: all instances outside F — see `c15_counterexample*` for why the full statement
+cannot be proved for the present encoding. -/
 theorem c15_partial_F (inst : Instance) (hwf : inst.WF)
-    (hF : inst.inF1 = true ∨ (inst.inF2 = true ∧ BatchesSpec inst (batches inst))) (x : Sched.Assign)
+    (hF : inst.inF1 = true ∨ (inst.inF2 = true ∧ inst.prios.length ≤ 32)) (x : Sched.Assign)
     (hopt : Optimal (milp inst) x) (pl : Placement) (hv : ValidPlacement inst x pl) :
     PriorityRespecting inst pl := by
-  rcases hF with hF | ⟨hF, hspec⟩
+  rcases hF with hF | ⟨hF, hlv⟩
   · exact priorityRespecting_of_inF1 hwf hF hv
-  · exact priorityRespecting_of_inF2 hwf hF hspec hopt hv
+  · exact priorityRespecting_of_inF2 hwf hF (batches_spec hwf.levelsNonempty hlv) hopt hv
 
 /-! ### the property fails outside F (known finding F7) -/
 
@@ -272,19 +282,19 @@ example : inF.WF ∧ inF.inF1 = true ∧
     by decide, by decide +kernel⟩⟩
 
 /-- a non-trivial instance inside F2 (one busy worker: 7 cpus, a 2-cpu task running; classes of 3 cpus and 1 cpu
-with interleaved priorities, so cuts, a reached limit and blocker variables exist) whose batches satisfy `BatchesSpec`, with
-an optimal solution and a valid placement -/
+with interleaved priorities, so cuts, a reached limit and blocker variables exist) with an optimal solution and a
+valid placement -/
 def inF2ex : Instance where
   workers := [{ id := 1, total := 70000, free := 50000, assigned := [2] }]
   classes := [{ need := 30000 }, { need := 10000 }, { need := 20000 }]
   queues := [[(5, [(1, 1)]), (1, [(1, 2)])], [(3, [(2, 1)]), (0, [(2, 2), (2, 3)])], []]
 
-example : inF2ex.WF ∧ inF2ex.inF1 = false ∧ inF2ex.inF2 = true ∧ BatchesSpec inF2ex (batches inF2ex) ∧
+example : inF2ex.WF ∧ inF2ex.inF1 = false ∧ inF2ex.inF2 = true ∧ inF2ex.prios.length ≤ 32 ∧
     Optimal (milp inF2ex) (assignOf [(.P 1 0, 1), (.P 1 1, 1), (.B 0 1, 0), (.B 1 1, 0)]) ∧
     ValidPlacement inF2ex (assignOf [(.P 1 0, 1), (.P 1 1, 1), (.B 0 1, 0), (.B 1 1, 0)])
       [((1, 1), 1), ((2, 1), 1)] :=
   ⟨⟨by decide, by decide, by decide, by decide, by decide, by decide, by decide, by decide⟩, by decide, by decide,
-   batchesSpec_of_B (by decide +kernel),
+   by decide,
    optimal_of_box (ub := boxBound inF2ex) (by decide +kernel) (by decide +kernel) (by decide +kernel) (by decide +kernel),
    ⟨by decide, by decide,
     by
